@@ -19,12 +19,12 @@ Definition str_of_res (r : res) : string :=
   | RUnmodelled => "U"
   end.
 
-(* per aggregate: row|refs|col|spec ; aggregates separated by ';'.
+(* per aggregate: <model value on the requested path>|<spec> ; aggregates separated by ';'.
+   The three model paths are provably equal (C14_paths_agree), so each aggregate is evaluated on ONE path, chosen by
+   the driver in rotation; the implementation's three paths are all compared against that value.
    The specification function computes with unreduced rationals (it is the plain mathematical definition), which is
    slow on long batches: it is printed only when [with_spec] (the driver asks for it on short batches), "-" otherwise. *)
-Definition agg_case (avx with_spec : bool) (evs : list event) (aggs : list (agg * option N)) : string :=
-  join ";" (map (fun af : agg * option N => let (a, f) := af in
-                   str_of_res (apply avx PRow a evs f) ++ "|" ++
-                   str_of_res (apply avx PRefs a evs f) ++ "|" ++
-                   str_of_res (apply avx PCol a evs f) ++ "|" ++
+Definition agg_case (avx with_spec : bool) (evs : list event) (aggs : list (agg * option N * path)) : string :=
+  join ";" (map (fun afp : agg * option N * path => let '(a, f, p) := afp in
+                   str_of_res (apply avx p a evs f) ++ "|" ++
                    (if with_spec then str_of_res (spec1 a evs (fld f)) else "-")) aggs).
